@@ -16,8 +16,8 @@ func init() { register("C08", checkC08) }
 
 func chainCfg(p *an.Prog) *an.ChainCfg {
 	return &an.ChainCfg{P: p, ParamDepth: 0,
-		IsMerge:   func(n string) bool { return n == fnMerge || n == "(*pkg/variables.Variables).Merge" },
-		IsWith:    func(n string) bool { return n == fnWith || n == "(*pkg/variables.Variables).With" },
+		IsMerge:   func(n string) bool { return n == fnMerge || n == "(pkg/variables.Variables).Merge" },
+		IsWith:    func(n string) bool { return n == fnWith || n == "(pkg/variables.Variables).With" },
 		IsFromMap: func(n string) bool { return n == fnFromMap },
 		IsEmpty:   func(n string) bool { return n == "pkg/variables.NewVariables" },
 	}
@@ -38,7 +38,7 @@ func freshContainer(v ssa.Value, depth int) bool {
 		switch x := s.(type) {
 		case *ssa.Call:
 			switch an.ShortCallee(&x.Call) {
-			case fnMerge, fnWith, fnFromMap, "pkg/variables.NewVariables", "(*pkg/variables.Variables).Merge", "(*pkg/variables.Variables).With":
+			case fnMerge, fnWith, fnFromMap, "pkg/variables.NewVariables", "(pkg/variables.Variables).Merge", "(pkg/variables.Variables).With":
 				continue
 			}
 			return false
@@ -203,7 +203,7 @@ func checkC08(c *an.Ctx) {
 					c.Bad(rule1, key, x.Pos(), "%s writes Task.%s through %s, a task object it did not allocate: the value is visible to every other stage, pipeline, watcher or direct run that uses the task", an.Short(fn), name, an.Prov(fa.X))
 				}
 			case *ssa.Call:
-				cc, ok := an.IsCallTo(x, fnSet, "(*pkg/variables.Variables).Set")
+				cc, ok := an.IsCallTo(x, fnSet, "(pkg/variables.Variables).Set")
 				if !ok {
 					return
 				}
@@ -345,7 +345,7 @@ func checkC08(c *an.Ctx) {
 				return
 			}
 			cname := an.ShortCallee(&call.Call)
-			if cname != "(*pkg/variables.Variables).Set" && cname != fnSet && cname != "(*sync.Map).Store" && cname != "(*sync.Map).Delete" {
+			if cname != "(pkg/variables.Variables).Set" && cname != fnSet && cname != "(*sync.Map).Store" && cname != "(*sync.Map).Delete" {
 				return
 			}
 			recv := call.Call.Value
@@ -492,6 +492,93 @@ func packageState(c *an.Ctx, rule string) {
 		}
 		return false, "is a shared " + types.TypeString(t, func(pk *types.Package) string { return pk.Name() })
 	}
+	// a sync.Pool of scratch buffers is shared storage that carries nothing from one user to the next when every
+	// Get is followed by Reset before anything else is done with the buffer and the buffer itself goes nowhere
+	// but back into the pool (its content leaves as a copy: String(), or as bytes written through it)
+	scratchPool := func(g *ssa.Global) bool {
+		if !an.TypeIs(g.Type(), "sync", "Pool") {
+			return false
+		}
+		okAll, nGets := true, 0
+		for _, fn := range p.Funcs {
+			if !an.InModule(fn) || fn.Blocks == nil || fn.Synthetic != "" && fn.Name() != "init" {
+				continue
+			}
+			an.EachInstr(fn, func(in ssa.Instruction) {
+				call, ok := in.(*ssa.Call)
+				if !ok || an.ShortCallee(&call.Call) != "(*sync.Pool).Get" || call.Call.Args[0] != ssa.Value(g) {
+					return
+				}
+				nGets++
+				if call.Referrers() == nil {
+					okAll = false
+					return
+				}
+				for _, r := range *call.Referrers() {
+					ta, ok := r.(*ssa.TypeAssert)
+					if !ok {
+						if _, isDbg := r.(*ssa.DebugRef); !isDbg {
+							okAll = false
+						}
+						continue
+					}
+					if !an.TypeIs(ta.AssertedType, "bytes", "Buffer") || ta.Referrers() == nil {
+						okAll = false
+						continue
+					}
+					var reset ssa.Instruction
+					for _, u := range *ta.Referrers() {
+						if c2, ok := u.(*ssa.Call); ok && an.ShortCallee(&c2.Call) == "(*bytes.Buffer).Reset" {
+							reset = c2
+						}
+					}
+					if reset == nil {
+						okAll = false
+						continue
+					}
+					for _, u := range *ta.Referrers() {
+						ui, _ := u.(ssa.Instruction)
+						if u == reset || ui == nil {
+							continue
+						}
+						if !an.Dominates(reset, ui) {
+							okAll = false
+						}
+						switch x := u.(type) {
+						case *ssa.Call:
+							name := an.ShortCallee(&x.Call)
+							if !strings.HasPrefix(name, "(*bytes.Buffer).") {
+								okAll = false
+							}
+						case *ssa.Defer:
+							if an.ShortCallee(&x.Call) != "(*sync.Pool).Put" {
+								okAll = false
+							}
+						case *ssa.MakeInterface:
+							// handed to a library writer/pool as an interface: fine when the only users are calls
+							if x.Referrers() != nil {
+								for _, u2 := range *x.Referrers() {
+									switch y := u2.(type) {
+									case *ssa.Call:
+										if callee := y.Call.StaticCallee(); callee != nil && an.InModule(callee) {
+											okAll = false
+										}
+									case *ssa.Defer, *ssa.DebugRef:
+									default:
+										okAll = false
+									}
+								}
+							}
+						case *ssa.DebugRef:
+						default:
+							okAll = false
+						}
+					}
+				}
+			})
+		}
+		return okAll && nGets > 0
+	}
 	nUses := 0
 	bad := false
 	for _, fn := range fns {
@@ -507,7 +594,7 @@ func packageState(c *an.Ctx, rule string) {
 				}
 				seen[g] = true
 				nUses++
-				if ok, why := immutable(g); !ok {
+				if ok, why := immutable(g); !ok && !scratchPool(g) {
 					bad = true
 					c.Bad(rule, an.Short(fn)+":"+g.Pkg.Pkg.Name()+"."+g.Name(), in.Pos(), "package variable %s.%s %s and is used on the way from a stage's settings to its commands (%s): the stage goroutines share it, so what one stage stores or parses into it can be what another stage executes with", g.Pkg.Pkg.Name(), g.Name(), why, p.PathString(reach[fn]))
 				}
